@@ -316,6 +316,24 @@ func runC20Scenario(c *c20Case, st *stats, idx int, scratch string) {
 				fail("restart: "+err.Error(), "server-restart")
 				return
 			}
+		case "stop":
+			n := node(op.Node)
+			if n.srv != nil {
+				w.settle(10 * time.Second)
+				w.stop(n)
+				ev("stop %d", n.id)
+			}
+		case "start":
+			n := node(op.Node)
+			if n.srv == nil {
+				err := w.start(n, op.Via != 0 && len(n.join) > 0)
+				ev("start %d (rejoin=%v): %v", n.id, op.Via != 0 && len(n.join) > 0, err)
+				c.Restarts = append(c.Restarts, c20RestartAt{Node: n.id, Cut: n.snap, Rejoined: op.Via != 0 && len(n.join) > 0})
+				if err != nil && n.srv == nil {
+					fail("start: "+err.Error(), "server-restart")
+					return
+				}
+			}
 		case "cut":
 			w.net.mu.Lock()
 			w.net.cut[uint64(op.Node)] = true
@@ -410,6 +428,10 @@ func c20Scripts(r *rng, n int, thorough bool) []c20Case {
 		c20Op{Kind: "settle"}, c20Op{Kind: "restart", Node: 3})
 	add("a single node compacts, then the first joiner arrives and restarts",
 		c20Op{Kind: "boot", Node: 1}, c20Op{Kind: "snapshot", Node: 1}, c20Op{Kind: "join", Node: 2, Via: 1}, c20Op{Kind: "settle"}, c20Op{Kind: "restart", Node: 2})
+	add("a member is down while one node joins and another is removed and the log is compacted; it comes back without repeating the handshake and is brought up to date by a snapshot",
+		c20Op{Kind: "boot", Node: 1}, c20Op{Kind: "join", Node: 2, Via: 1}, c20Op{Kind: "join", Node: 3, Via: 1}, c20Op{Kind: "settle"},
+		c20Op{Kind: "stop", Node: 1}, c20Op{Kind: "settle"}, c20Op{Kind: "join", Node: 4, Via: 2}, c20Op{Kind: "remove", Node: 3},
+		c20Op{Kind: "snapshot", Node: 2}, c20Op{Kind: "snapshot", Node: 4}, c20Op{Kind: "start", Node: 1}, c20Op{Kind: "settle"})
 	add("join through a follower whose leader has just been cut off",
 		c20Op{Kind: "boot", Node: 1}, c20Op{Kind: "join", Node: 2, Via: 1}, c20Op{Kind: "join", Node: 3, Via: 1}, c20Op{Kind: "settle"},
 		c20Op{Kind: "cut", Node: 1}, c20Op{Kind: "join", Node: 4, Via: 2}, c20Op{Kind: "heal"})
